@@ -297,7 +297,7 @@ func TestWorker(t *testing.T) {
 		if res.Runs == 0 {
 			res.FirstSeed = seed
 		}
-		plan := &Plan{Prop: job.Prop, Profile: job.Prop, Seed: seed}
+		plan := &Plan{Prop: job.Prop, Profile: job.Prop, Seed: seed, Index: idx + 1}
 		r := runOne(t, plan)
 		res.Runs++
 		res.Steps += r.Stats.Steps
@@ -365,7 +365,7 @@ func TestWorker(t *testing.T) {
 	// schedule, disk images and verdict must repeat exactly
 	if res.Violation == nil {
 		for k, seed := range firstSeeds {
-			r := runOne(t, &Plan{Prop: job.Prop, Profile: job.Prop, Seed: seed})
+			r := runOne(t, &Plan{Prop: job.Prop, Profile: job.Prop, Seed: seed, Index: job.Start + k*job.Stride + 1})
 			res.Counters["determinism_reexecutions"]++
 			if r.Hash != firstHashes[k] {
 				res.Err = fmt.Sprintf("nondeterminism: seed %d gave hash %d first and %d when re-executed", seed, firstHashes[k], r.Hash)
